@@ -236,6 +236,9 @@ def run(ctx):
     fringe.odd_symlinks(ctx)
     from props import glue
     glue.lazy_walk_tree_change(ctx)
+    from props import clauses
+    clauses.negateall_default(ctx)
+    clauses.mixed_globstars(ctx)
     return ctx.finish(RULE)
 
 
